@@ -4,7 +4,7 @@ from __future__ import annotations
 from ..core import Ctx, HarnessError, Result
 from ..sched.catalogue import A, AND, OR, E, spec_from
 from ..sched.mon_c08 import FlowProfile
-from ..sched.mon_c30 import COUNT, RemoveFrame
+from ..sched.mon_c30 import COUNT, RemoveFrame, wrap_c30
 from ..sched.monitors import PoolInvariants
 from ..sched.run import explore_all, replay_violation, result_from
 
@@ -30,6 +30,11 @@ ASSUME = [
     'does not decide); a child living only in removed flows MUST',
     'an active (preparing/submitted/running) child left without satisfied '
     'prerequisites may stay or go; a waiting one must go',
+    '"can run again later" is judged as: a removed instance that is back in '
+    'the pool with all prerequisites satisfied is never left waiting in a '
+    'quiescent state, and `set --pre=all` of it in a removed flow respawns '
+    'and submits it (no hold/queue-limit/runahead reason exists in these '
+    'workflows)',
     'kill of the removed instance\'s job and what its late messages do are '
     'not judged here',
 ]
@@ -71,16 +76,22 @@ def rows(tier: str):
         ('diamond-forced-rm', 'diamond', 1,
          [[setpre('1/d', ['1/b:succeeded'])], [rm('1/b'), rm('1/c')]]),
         ('chain-flow2-rm', 'chain', 1,
-         [[trig('1/a', '2')], [rm('1/b', '1'), rm('1/b', '2'), rm('1/b')]]),
+         [[trig('1/a', '2')], [rm('1/b', '1'), rm('1/b', '2')]]),
+        # "so it can run again later": removal, then all prerequisites again
+        # (diamond: the other branch keeps the scheduler alive meanwhile)
+        ('diamond-rm-rerun-b', 'diamond', 1,
+         [[rm('1/b')], [setpre('1/b', ['all'])]]),
     ]
     if tier == 'quick':
         return q
     return q + [
+        ('chain-flow2-rm-all', 'chain', 1,
+         [[trig('1/a', '2')], [rm('1/b'), rm('1/c', '1')]]),
         ('prevchain-rm', 'prevchain', 2,
          [[rm('1/a'), rm('2/a', '1'), rm('1/b'), rm('2/b')]]),
         ('diamond-rm-ac', 'diamond', 1,
          [[rm('1/a'), rm('1/c'), rm('1/d'), rm('1/b', '1')]]),
-        ('chain-rm-rerun-all', 'chain', 1,
+        ('chain-rm-rerun-ab', 'chain', 1,
          [[rm('1/a'), rm('1/b')],
           [setpre('1/a', ['all']), setpre('1/b', ['all'])]]),
         ('chain-rm-rerun-flow1', 'chain', 1,
@@ -90,8 +101,11 @@ def rows(tier: str):
          [[setpre('1/c', ['1/b:succeeded']), setpre('1/b', ['all'])],
           [rm('1/b'), rm('1/a', '1')]]),
         ('chain-flow2-rm-a', 'chain', 1,
-         [[trig('1/a', '2'), trig('1/b', '2')],
-          [rm('1/a', '2'), rm('1/a', '1'), rm('1/c', '2'), rm('1/c')]]),
+         [[trig('1/a', '2')],
+          [rm('1/a', '2'), rm('1/a', '1'), rm('1/c', '2')]]),
+        ('chain-flow2b-rm', 'chain', 1,
+         [[trig('1/b', '2')],
+          [rm('1/c', '2'), rm('1/c'), rm('1/b', '2')]]),
     ]
 
 
@@ -107,7 +121,7 @@ def catalogue(tier: str):
 def make_factory(spec, tier='quick'):
     def factory():
         return FlowProfile(
-            spec, op_lists=spec['op_lists'],
+            spec, op_lists=spec['op_lists'], pre_boot=wrap_c30,
             monitors=[RemoveFrame, PoolInvariants], jump=())
     return factory
 
@@ -127,8 +141,9 @@ def run(ctx: Ctx) -> Result:
         max_states=ctx.pick(6000, 60000), max_seconds=ctx.pick(1500, 6000))
     seen = COUNT.collect()
     if not st.violations and not st.error:
-        need = NEED + (('followups', 'removed-instance-ran-again')
-                       if ctx.tier == 'thorough' else ())
+        need = NEED + ('followups', 'removed-instance-ran-again',
+                       'removed-instance-respawned',
+                       'removed-after-finishing')
         for k in need:
             if not seen.get(k):
                 raise HarnessError(f'vacuous: no {k} in the whole exploration')
